@@ -198,6 +198,29 @@ pub fn c01(eng: &mut Engine, rng: &mut Rng, thorough: bool, out: &mut Out) -> Ca
                     f(&mut p);
                     emit_legacy(eng, out, &mut cases, "c01.legacy", &format!("c01:{cls}"), "", exp, &p, &b.ghosts, &b.agg, &req0, &o, "safety");
                 }
+                // exhaustive single cross-wiring: every referent of every map moved (or copied) into every other map, shape adapted
+                for from in MAPS {
+                    let keys: Vec<String> = b.pres["requested_proof"][*from].as_object().map(|o| o.keys().cloned().collect()).unwrap_or_default();
+                    for k in keys {
+                        for to in MAPS {
+                            if to == from {
+                                continue;
+                            }
+                            for keep in [false, true] {
+                                let mut p = b.pres.clone();
+                                let e = p["requested_proof"][*from].as_object_mut().unwrap().remove(&k).unwrap();
+                                let idx = e.get("sub_proof_index").and_then(|x| x.as_u64()).unwrap_or(0);
+                                p["requested_proof"][*to][k.as_str()] = shape_for(to, idx);
+                                if keep {
+                                    p["requested_proof"][*from][k.as_str()] = e;
+                                }
+                                // a requested predicate must be proven: it can never be answered from another map; attributes: judged by the model
+                                let exp = if *from == "predicates" && !keep { Some(false) } else { None };
+                                emit_legacy(eng, out, &mut cases, "c01.legacy", &format!("c01:xwire:{from}->{to}:{}", if keep { "copy" } else { "move" }), "", exp, &p, &b.ghosts, &b.agg, &req0, &o, "safety");
+                            }
+                        }
+                    }
+                }
             }
             if let Ok(b) = eng.build_w3c(&plan) {
                 for (cls, rj, exp) in &variants {
@@ -208,6 +231,27 @@ pub fn c01(eng: &mut Engine, rng: &mut Rng, thorough: bool, out: &mut Out) -> Ca
                         emit_w3c(eng, out, &mut cases, "c01.w3c", &format!("c01:req:{cls}"), "", exp, &b.pres, &b.ghosts, &b.agg, true, &req, &o, "safety");
                     }
                 }
+            }
+        }
+        // one referent string used for an attribute and for a predicate (the two sections are separate namespaces)
+        if round < 2 || thorough {
+            let mut plan = basic_plan(rng, eng, "a_alice", true);
+            let shared = "shared".to_string();
+            plan.refs[0].referent = shared.clone();
+            let pi = plan.refs.iter().position(|r| matches!(r.kind, Kind::Pred(..))).unwrap();
+            plan.refs[pi].referent = shared.clone();
+            let req0 = req_from(&plan.request_json()).unwrap();
+            if let Ok(b) = eng.build_legacy(&plan) {
+                emit_legacy(eng, out, &mut cases, "c01.legacy", "c01:shared-referent:honest", "", Some(true), &b.pres, &b.ghosts, &b.agg, &req0, &o, "safety");
+                let mut p = b.pres.clone();
+                p["requested_proof"]["predicates"].as_object_mut().unwrap().remove(&shared);
+                emit_legacy(eng, out, &mut cases, "c01.legacy", "c01:shared-referent:predicate-dropped", "", Some(false), &p, &b.ghosts, &b.agg, &req0, &o, "safety");
+                let mut p = b.pres.clone();
+                p["requested_proof"]["revealed_attrs"].as_object_mut().unwrap().remove(&shared);
+                emit_legacy(eng, out, &mut cases, "c01.legacy", "c01:shared-referent:attribute-dropped", "", Some(false), &p, &b.ghosts, &b.agg, &req0, &o, "safety");
+            }
+            if let Ok(b) = eng.build_w3c(&plan) {
+                emit_w3c(eng, out, &mut cases, "c01.w3c", "c01:shared-referent:honest", "", Some(true), &b.pres, &b.ghosts, &b.agg, true, &req0, &o, "safety");
             }
         }
         // two credentials: referents re-pointed at the other credential
@@ -452,6 +496,58 @@ pub fn c03(eng: &mut Engine, rng: &mut Rng, thorough: bool, out: &mut Out) -> Ca
                 }
             }
         }
+        // the same alterations on presentations of random honest shapes (credentials that only hold unrevealed attributes, unused
+        // credentials, several credentials, groups, predicates ...): every credential / every revealed entry in turn
+        let mut shapes: Vec<(Plan, Plan)> = extreme_plans(rng, &eng.cast).into_iter().map(|p| (p.clone(), p)).collect();
+        for k in 0..(if thorough { 30 } else { 6 }) {
+            shapes.push((gen_honest_plan(rng, &eng.cast, true, k % 3 == 0), gen_honest_plan(rng, &eng.cast, false, k % 3 == 0)));
+        }
+        for (plan_w, plan_l) in shapes {
+            let plan = plan_w;
+            let ov = honest_vopts(&eng.cast, &plan);
+            if let Ok(b) = eng.build_w3c(&plan) {
+                for ci in 0..b.pres.verifiable_credential.len() {
+                    let subj = b.pres.verifiable_credential[ci].credential_subject.0.clone();
+                    let pv = b.pres.verifiable_credential[ci].get_credential_presentation_proof().unwrap().clone();
+                    let def = eng.cast.w.defs.iter().find(|d| d.cid == pv.cred_def_id).unwrap();
+                    // forge a value for a schema attribute the subject does not show
+                    if let Some(missing) = def.schema.attr_names.0.iter().find(|a| !subj.keys().any(|k| norm(k) == norm(a))) {
+                        let mut p = b.pres.clone();
+                        p.verifiable_credential[ci].credential_subject.0.insert(missing.clone(), V::String("Forged Value".into()));
+                        let shape = if subj.is_empty() { "empty-subject" } else { "partial-subject" };
+                        emit_w3c(eng, out, &mut cases, "c03.w3c", &format!("c03:random-shape:forged-entry:{shape}"), "", Some(false), &p, &b.ghosts, &b.agg, true, &b.req, &ov, "safety");
+                    }
+                    // alter an existing string / number entry
+                    if let Some((k0, v0)) = subj.iter().find(|(_, v)| !matches!(v, V::Bool(_))) {
+                        let mut p = b.pres.clone();
+                        let nv = match v0 { V::Number(n) => V::Number(n.wrapping_add(1)), _ => V::String("Altered".into()) };
+                        p.verifiable_credential[ci].credential_subject.0.insert(k0.clone(), nv);
+                        emit_w3c(eng, out, &mut cases, "c03.w3c", "c03:random-shape:altered-entry", "", Some(false), &p, &b.ghosts, &b.agg, true, &b.req, &ov, "safety");
+                    }
+                }
+            }
+            let plan = plan_l;
+            let ov = honest_vopts(&eng.cast, &plan);
+            if let Ok(b) = eng.build_legacy(&plan) {
+                let singles: Vec<String> = b.pres["requested_proof"]["revealed_attrs"].as_object().map(|o| o.keys().cloned().collect()).unwrap_or_default();
+                for r in singles {
+                    let mut p = b.pres.clone();
+                    let e = p["requested_proof"]["revealed_attrs"][r.as_str()]["encoded"].as_str().unwrap_or("0").to_string();
+                    p["requested_proof"]["revealed_attrs"][r.as_str()]["encoded"] = json!(if e.len() > 12 { perturb_decimal(&e) } else { format!("{}1", e) });
+                    emit_legacy(eng, out, &mut cases, "c03.legacy", "c03:random-shape:encoded-altered", "", Some(false), &p, &b.ghosts, &b.agg, &b.req, &ov, "safety");
+                }
+                let groups: Vec<String> = b.pres["requested_proof"]["revealed_attr_groups"].as_object().map(|o| o.keys().cloned().collect()).unwrap_or_default();
+                for g in groups {
+                    let members: Vec<String> = b.pres["requested_proof"]["revealed_attr_groups"][g.as_str()]["values"].as_object().map(|o| o.keys().cloned().collect()).unwrap_or_default();
+                    for m in members {
+                        let mut p = b.pres.clone();
+                        let e = p["requested_proof"]["revealed_attr_groups"][g.as_str()]["values"][m.as_str()]["encoded"].as_str().unwrap_or("0").to_string();
+                        p["requested_proof"]["revealed_attr_groups"][g.as_str()]["values"][m.as_str()]["encoded"] = json!(if e.len() > 12 { perturb_decimal(&e) } else { format!("{}1", e) });
+                        emit_legacy(eng, out, &mut cases, "c03.legacy", "c03:random-shape:group-encoded-altered", "", Some(false), &p, &b.ghosts, &b.agg, &b.req, &ov, "safety");
+                    }
+                }
+            }
+        }
         // a request whose names group repeats a name: a group member that no requested name covers must not ride along (F20)
         {
             let h = eng.cast.cred("a_alice");
@@ -621,6 +717,9 @@ pub fn c05(eng: &mut Engine, rng: &mut Rng, thorough: bool, out: &mut Out) -> Ca
             for common in [false, true] {
                 if let Some((pj, ghosts, agg, req)) = crate::adv::mix_two_holders(eng, rng, common) {
                     emit_legacy(eng, out, &mut cases, "c05.legacy", &format!("c05:two-holders:{}", if common { "common-attr" } else { "no-common-attr" }), "", Some(false), &pj, &ghosts, &agg, &req, &o, "safety");
+                    // ... and for a verifier that resolves exactly the one definition both credentials were issued under
+                    let narrow = VOpts { only_defs: Some(vec![ia]), ..Default::default() };
+                    emit_legacy(eng, out, &mut cases, "c05.legacy", &format!("c05:two-holders:{}:single-definition-context", if common { "common-attr" } else { "no-common-attr" }), "", Some(false), &pj, &ghosts, &agg, &req, &narrow, "safety");
                 }
             }
         }
